@@ -386,24 +386,24 @@ type Violation struct {
 }
 
 type Stats struct {
-	States      int
-	Transitions int
-	DrainRuns   int
-	DrainOps    int
-	KeyChecks   int
-	MaxDepth    int
-	PerOp       map[string]int
-	Responses   map[string]int
-	RuleHits    map[string]int // all rule hits by rule (incl. foreign)
-	Foreign     map[string]int
+	States        int
+	Transitions   int
+	DrainRuns     int
+	DrainOps      int
+	KeyChecks     int
+	MaxDepth      int
+	PerOp         map[string]int
+	Responses     map[string]int
+	RuleHits      map[string]int // all rule hits by rule (incl. foreign)
+	Foreign       map[string]int
 	NonEmptyPulls int
-	Exhaustive  bool
-	Levels      []int
-	Wall        float64
-	Samples     [][]string
-	ForeignEx   []Violation
-	foreignAll  []Violation
-	Promoted    int
+	Exhaustive    bool
+	Levels        []int
+	Wall          float64
+	Samples       [][]string
+	ForeignEx     []Violation
+	foreignAll    []Violation
+	Promoted      int
 	// StateDependent: tasks whose outcome differed between a warm worker and a
 	// freshly started one (process-global state leaking between executions)
 	StateDependent int
